@@ -107,6 +107,10 @@ func ParseUpdateRoutingCommand(cmd redcon.Command) (*UpdateRouting, error) {
 	if len(cmd.Args) < 2 {
 		return nil, errWrongNumber(cmd.Args)
 	}
+	// The coordinator id is mandatory.
+	if len(cmd.Args) < 3 {
+		return nil, errWrongNumber(cmd.Args)
+	}
 	coordinatorID, err := strconv.ParseUint(util.BytesToString(cmd.Args[2]), 10, 64)
 	if err != nil {
 		return nil, err
